@@ -346,4 +346,7 @@ def build():
             bank.add(whole, ("snoc", z3.Concat(a_, b_), y_))
             return [ih], z3.Implies(fn.t(whole), fn.t(a_))
         lem.append(Lemma(nm, [("base", base), ("step", step)], P))
+    world.trusted_notes.append("dataclasses.replace(a, **ch) is the opaque relation replaced_with(a, ch, b): a new object of a's class whose init fields are a's own values except those named in ch (it may raise)")
+    world.trusted_notes.append("all_dup(xs, ys) -- element-wise is_dup with equal length -- is opaque: the induction hypothesis of duplicate() over a tuple's elements")
+    world.trusted_notes.append('is_dup is defined by its introduction rule only (replaced_with and changes_ok imply is_dup); finite trees')
     return world, lib, reg, lem
